@@ -52,9 +52,9 @@ class Lock:
 
 
 # ------------------------------------------------------------------ harness
-def build_harness(name="harness"):
+def build_harness(name="harness", race=False):
     """Build a harness module (/verif/<name>, package main) against /repo's current working tree with the
-    verif tag; the binary is /verif/build/<name>."""
+    verif tag; the binary is /verif/build/<name> (with race=True: built with Go's race detector, /verif/build/<name>_race)."""
     t0 = time.time()
     src = os.path.join(ROOT, name)
     with Lock(name):
@@ -62,8 +62,9 @@ def build_harness(name="harness"):
         gosum = os.path.join(src, "go.sum")
         if not os.path.exists(gosum):
             subprocess.run(["cp", os.path.join(REPO, "go.sum"), gosum], check=True)
-        p = subprocess.run(["go", "build", "-tags", "verif", "-o", os.path.join(BUILD, name), "."],
-                           cwd=src, env=GOENV, capture_output=True, text=True, timeout=900)
+        args = ["go", "build"] + (["-race"] if race else []) + ["-tags", "verif", "-o", os.path.join(BUILD, name + ("_race" if race else "")), "."]
+        env = dict(GOENV, CGO_ENABLED="1") if race else GOENV
+        p = subprocess.run(args, cwd=src, env=env, capture_output=True, text=True, timeout=900)
         if p.returncode != 0:
             raise BuildError("%s build failed (does /repo compile with -tags verif?):\n" % name + p.stderr[-4000:])
     return time.time() - t0
